@@ -170,7 +170,8 @@ func (r *Run) unsupported(format string, args ...interface{}) error {
 }
 
 func (r *Run) active(tags []string) bool {
-	if r.prop == "" || len(tags) == 0 {
+	if r.prop == "" || len(tags) == 0 || r.prop == "C03" {
+		// the no-panic sweep (C03) leans on every functional clause of the functions it covers
 		return true
 	}
 	return hasTag(tags, r.prop)
